@@ -234,6 +234,20 @@ bool ComponentEntity::replaceComponent(size_t index, const ComponentPtr &newComp
         parent = oldComponent->parent();
     }
 
+    // The replacement enters the hierarchy as addComponent() would put it there:
+    // never below itself, and leaving the entity that held it so far.
+    if ((oldComponent == nullptr) || (newComponent.get() == this) || hasAncestor(newComponent)) {
+        return false;
+    }
+    if (oldComponent == newComponent) {
+        return true;
+    }
+    if (newComponent->hasParent()) {
+        removeComponentFromEntity(newComponent->parent(), newComponent);
+        // The replacement may have been a sibling of the component to replace.
+        index = size_t(std::find(pFunc()->mComponents.begin(), pFunc()->mComponents.end(), oldComponent) - pFunc()->mComponents.begin());
+    }
+
     if (removeComponent(index)) {
         pFunc()->mComponents.insert(pFunc()->mComponents.begin() + ptrdiff_t(index), newComponent);
         newComponent->pFunc()->setParent(parent);
